@@ -49,16 +49,23 @@ Qed.
 Lemma istep_genuine fwd exp c s rem i :
   let '(s1, _, _, _, lg) := istep fwd exp c s rem i in genuine s s1 lg.
 Proof.
-  destruct i as [k e valid tie|k ver| |]; cbn [istep]; try apply genuine_nil.
+  destruct i as [k e valid tie|k ver| | |k e valid|k ver]; cbn [istep]; try apply genuine_nil.
   - destruct (rem <? c)%N; [apply genuine_nil|].
     pose proof (genuine_one s (Put k e exp valid tie)) as G.
     destruct (step s (Put k e exp valid tie)) as [s' o]; cbn [fst snd] in G.
-    destruct o as [|[|] r| | |]; exact G.
+    destruct o as [|[|] r| | | | |]; exact G.
   - destruct (negb ((ver =? 1) || (ver =? 2))%N); [apply genuine_nil|].
     destruct (rem <? c)%N; [apply genuine_nil|].
     pose proof (genuine_one s (Get k)) as G.
     destruct (step s (Get k)) as [s' o]; cbn [fst snd] in G.
-    destruct o as [| |[e|]| |]; exact G.
+    destruct o as [| |[e|]| | | |]; exact G.
+  - destruct (rem <? c)%N; [apply genuine_nil|].
+    pose proof (genuine_one s (PutF k e valid FLookup)) as G.
+    destruct (step s (PutF k e valid FLookup)) as [s' o]; exact G.
+  - destruct (negb ((ver =? 1) || (ver =? 2))%N); [apply genuine_nil|].
+    destruct (rem <? c)%N; [apply genuine_nil|].
+    pose proof (genuine_one s (GetF k)) as G.
+    destruct (step s (GetF k)) as [s' o]; exact G.
 Qed.
 
 Lemma exec_genuine fwd exp c s rem b :
@@ -125,6 +132,10 @@ Fixpoint view_body (fwd : bool) (c : N) (m : spec) (rem : N) (b : list instr) (r
       match i, r with
       | ISkip, RSkipped => view_body fwd c m rem b' rs'
       | IFail, RError out => (is_nil rs' && is_none out, m)
+      (* a lookup of the stored entry that fails: an error without output, the program ends,
+         nothing is accepted *)
+      | IUpdateF _ _ _, RError out => (is_nil rs' && is_none out, m)
+      | IReadF _ _, RError out => (is_nil rs' && is_none out, m)
       | IRead k ver, RValue rv vd ty =>
           (* a read returns the entry of the last accepted update of its key *)
           match alookup k m with
@@ -188,6 +199,11 @@ Proof.
   - rewrite !alookup_aset_other by exact Hne. apply A.
 Qed.
 
+Lemma agree_add_r m s : agree m s -> agree m (add_r s).
+Proof. intros A k; apply A. Qed.
+Lemma agree_add_w m s : agree m s -> agree m (add_w s).
+Proof. intros A k; apply A. Qed.
+
 Lemma ltb_false_leb a b : (a <? b)%N = false -> (b <=? a)%N = true.
 Proof. intros H; apply N.ltb_ge in H; now apply N.leb_le. Qed.
 
@@ -199,7 +215,7 @@ Lemma view_body_exec fwd exp c b : forall s rem m,
 Proof.
   induction b as [|i t IH]; intros s rem m A; [exists m; split; [reflexivity|exact A]|].
   cbn [exec].
-  destruct i as [k e valid tie|k ver| |].
+  destruct i as [k e valid tie|k ver| | |k e valid|k ver].
   - (* IUpdate *)
     cbn [istep]. destruct (rem <? c)%N eqn:P.
     { cbn. exists m; split; [|exact A].
@@ -210,8 +226,8 @@ Proof.
     2:{ cbn. exists m; split; [|exact A]. rewrite Bool.andb_false_r; reflexivity. }
     destruct (alookup k (entries s)) as [old|] eqn:L.
     + destruct (supersedes old e tie) eqn:S.
-      * specialize (IH (write s k e exp 0) (rem - c)%N (aset k e m) (agree_write m s k e exp 0 A)).
-        destruct (exec fwd exp c (write s k e exp 0) (rem - c)%N t) as [[[s2 rs] ok2] lg2]; cbn [fst snd] in *.
+      * specialize (IH (add_w (write s k e exp 0)) (rem - c)%N (aset k e m) (agree_add_w _ _ (agree_write m s k e exp 0 A))).
+        destruct (exec fwd exp c (add_w (write s k e exp 0)) (rem - c)%N t) as [[[s2 rs] ok2] lg2]; cbn [fst snd] in *.
         destruct IH as (m' & V & A'). exists m'; split; [|exact A'].
         cbn [view_body]. rewrite P, (A k), L, S. cbn [andb]. exact V.
       * cbn. exists m; split; [|exact A].
@@ -229,8 +245,8 @@ Proof.
     destruct (rem <? c)%N eqn:P.
     { cbn. exists m; split; [|exact A]. rewrite Vk, P; reflexivity. }
     cbn [step]. destruct (alookup k (entries s)) as [e|] eqn:L.
-    + specialize (IH s (rem - c)%N m A).
-      destruct (exec fwd exp c s (rem - c)%N t) as [[[s2 rs] ok2] lg2]; cbn [fst snd] in *.
+    + specialize (IH (add_r s) (rem - c)%N m (agree_add_r _ _ A)).
+      destruct (exec fwd exp c (add_r s) (rem - c)%N t) as [[[s2 rs] ok2] lg2]; cbn [fst snd] in *.
       destruct IH as (m' & V & A'). exists m'; split; [|exact A'].
       cbn [view_body]. rewrite (A k), L, !N.eqb_refl, opt_N_eqb_refl, Vk, (ltb_false_leb _ _ P).
       cbn [andb]. exact V.
@@ -242,20 +258,37 @@ Proof.
     cbn [istep]. specialize (IH s rem m A).
     destruct (exec fwd exp c s rem t) as [[[s2 rs] ok2] lg2]; cbn [fst snd] in *.
     exact IH.
+  - (* IUpdateF *)
+    cbn [istep]. destruct (rem <? c)%N; [cbn; exists m; split; [reflexivity|exact A]|].
+    pose proof (put_fault_changes_nothing s k e valid FLookup) as [E _].
+    destruct (step s (PutF k e valid FLookup)) as [s' o]; cbn [fst] in E; subst s'.
+    cbn. exists m; split; [reflexivity|exact A].
+  - (* IReadF *)
+    cbn [istep]. destruct (negb ((ver =? 1) || (ver =? 2))%N); [cbn; exists m; split; [reflexivity|exact A]|].
+    destruct (rem <? c)%N; cbn; exists m; split; try reflexivity; exact A.
 Qed.
 
 Lemma view_ok_from fwd l : forall s m, agree m s -> view_ok fwd m (ptrace fwd s l) = true.
 Proof.
   induction l as [|o t IH]; intros s m A; [reflexivity|].
   cbn [ptrace]. unfold pstep. destruct o as [b|p]; cbn [pstep_log].
-  - destruct b as [n|k e exp valid tie|k| |h|k].
+  - destruct b as [n|k e exp valid tie|k| |h|k|fok| |k e vf f|k| ].
     + cbn. apply IH. exact A.
     + cbn [step]. destruct valid; cbn [negb fst]; [|cbn; apply IH; exact A].
       destruct (alookup k (entries s)) as [old|].
-      * destruct (supersedes old e tie); cbn; apply IH; [apply agree_write|]; exact A.
+      * destruct (supersedes old e tie); cbn; apply IH; [apply agree_add_w, agree_write|]; exact A.
       * destruct (limit s <=? count s)%N; cbn; apply IH; [|apply agree_write]; exact A.
-    + cbn. rewrite (A k), opt_entry_eqb_refl. apply IH. exact A.
+    + cbn [step]. destruct (alookup k (entries s)) as [e|] eqn:L; cbn.
+      * rewrite (A k), L; cbn. rewrite entry_eqb_refl. apply IH, agree_add_r, A.
+      * rewrite (A k), L; cbn. apply IH, A.
     + cbn. apply IH. exact A.
+    + cbn. apply IH. exact A.
+    + cbn. apply IH. exact A.
+    + cbn. apply IH. intros k; apply A.
+    + cbn. apply IH. exact A.
+    + pose proof (put_fault_changes_nothing s k e vf f) as [E [r R]].
+      destruct (step s (PutF k e vf f)) as [s' o]; cbn [fst snd] in *; subst s' o.
+      cbn. apply IH. exact A.
     + cbn. apply IH. exact A.
     + cbn. apply IH. exact A.
   - destruct (budget p <? initc p)%N eqn:B.
@@ -277,7 +310,7 @@ Definition st_of (r : state * list ires * bool * list (op * obs)) : state := fst
 Lemma failing_instr_no_effect fwd exp c s rem i s1 rem1 r lg :
   istep fwd exp c s rem i = (s1, rem1, r, false, lg) -> s1 = s.
 Proof.
-  destruct i as [k e valid tie|k ver| |]; cbn [istep].
+  destruct i as [k e valid tie|k ver| | |k e valid|k ver]; cbn [istep].
   - destruct (rem <? c)%N; [intros H; now inversion H|].
     cbn [step]. destruct valid; cbn [negb]; [|intros H; now inversion H].
     destruct (alookup k (entries s)) as [old|].
@@ -288,6 +321,12 @@ Proof.
     cbn [step]. destruct (alookup k (entries s)); intros H; now inversion H.
   - intros H; now inversion H.
   - intros H; inversion H.
+  - destruct (rem <? c)%N; [intros H; now inversion H|].
+    pose proof (put_fault_changes_nothing s k e valid FLookup) as [E _].
+    destruct (step s (PutF k e valid FLookup)) as [s' o]; cbn [fst] in E; subst s'.
+    intros H; now inversion H.
+  - destruct (negb ((ver =? 1) || (ver =? 2))%N); [intros H; now inversion H|].
+    destruct (rem <? c)%N; intros H; now inversion H.
 Qed.
 
 (* nothing is rolled back: the registry after a program whose instruction fails is the
@@ -357,14 +396,19 @@ Definition exp_is (x : N) (y : op * obs) : Prop :=
 Lemma istep_expiry fwd exp c s rem i :
   Forall (exp_is exp) (snd (istep fwd exp c s rem i)).
 Proof.
-  destruct i as [k e valid tie|k ver| |]; cbn [istep]; try (constructor).
+  destruct i as [k e valid tie|k ver| | |k e valid|k ver]; cbn [istep]; try (constructor).
   - destruct (rem <? c)%N; [constructor|].
     destruct (step s (Put k e exp valid tie)) as [s' o].
-    destruct o as [|[|] r| | |]; repeat constructor.
+    destruct o as [|[|] r| | | | |]; repeat constructor.
   - destruct (negb ((ver =? 1) || (ver =? 2))%N); [constructor|].
     destruct (rem <? c)%N; [constructor|].
     destruct (step s (Get k)) as [s' o].
-    destruct o as [| |[e|]| |]; repeat constructor.
+    destruct o as [| |[e|]| | | |]; repeat constructor.
+  - destruct (rem <? c)%N; [constructor|].
+    destruct (step s (PutF k e valid FLookup)) as [s' o]. repeat constructor.
+  - destruct (negb ((ver =? 1) || (ver =? 2))%N); [constructor|].
+    destruct (rem <? c)%N; [constructor|].
+    destruct (step s (GetF k)) as [s' o]. repeat constructor.
 Qed.
 
 Lemma exec_expiry fwd exp c b : forall s rem,
